@@ -81,7 +81,7 @@ Proof.
     red_eqb; cbn [orb negb];
     match goal with |- context [(length ?l <? ?k)%nat] =>
       assert (Hge : (length l <? k)%nat = false)
-        by (apply Nat.ltb_ge; rewrite !app_length, le32_length; try rewrite le32_length;
+        by (apply Nat.ltb_ge; rewrite firstn_length, !app_length, le32_length; try rewrite le32_length;
             rewrite Hl; unfold id_len; lia);
       rewrite Hge end;
     rewrite <- ?app_assoc.
